@@ -36,7 +36,7 @@ func init() {
 }
 
 var UriPool = []string{"urn:a", "urn:b", "http://x/y"}
-var LangPool = []string{"en", "en-GB", "en-US", "EN", "de", "zh-TW", "zh", "", "fr-CA-x-foo", "e", "en-", "zh-Hant", "zh-Hant-TW", "en-GB-oxendict", "fr-CA"}
+var LangPool = []string{"eN", "x-klingoN", "X", "dE", "en", "en-GB", "en-US", "EN", "de", "zh-TW", "zh", "", "fr-CA-x-foo", "e", "en-", "zh-Hant", "zh-Hant-TW", "en-GB-oxendict", "fr-CA"}
 var AttrNames = []string{"id", "k", "a", "x-1", "n", "attribute", "text", "div", "or"}
 
 func DefaultDocCfg() DocCfg {
